@@ -1,6 +1,7 @@
 import CanvasModel.Driver
 import CanvasModel.C13
 import CanvasModel.C13.Reader
+import CanvasModel.C13.Parse
 open Canvas Canvas.C13
 
 /-! Driver for C13: STR / TXT / HIST lines run the writer model, DOC lines run the L3 reader. -/
@@ -206,6 +207,17 @@ def parseInfl : List String → Option (List (Nat × Bytes))
       | _, _, _ => none
     | _ => none
 
+partial def showPV : Rd.PV → String
+  | .null => "null"
+  | .bool b => if b then "T" else "F"
+  | .num t => "#" ++ Rd.toStr t
+  | .str s => "(" ++ Rd.hexOf s ++ ")"
+  | .name s => "/" ++ Rd.hexOf s
+  | .ref n => "R" ++ toString n
+  | .kw s => "?" ++ Rd.toStr s
+  | .arr xs => "[" ++ String.join (xs.map (fun x => showPV x ++ " ")) ++ "]"
+  | .dict kvs => "{" ++ String.join (kvs.map (fun e => Rd.hexOf e.1 ++ "=" ++ showPV e.2 ++ " ")) ++ "}"
+
 def handle : List String → Option String
   | ["STR", h] => do
     let s ← unhex h
@@ -221,6 +233,17 @@ def handle : List String → Option String
       | some (x, []) => ",".intercalate ((decodeText x).map toString)
       | _ => "none"
     some s!"w={hexB w} d={d}"
+  | ["PARSE", h] => do
+    let b ← unhexBA h
+    let bs := b.toList
+    let a := match P.parseVal (bs.length + 1) bs with
+      | some (v, []) => Rd.toStr (P.show' v)
+      | some _ => "trailing"
+      | none => "none"
+    let c := match Rd.parseObj b true (b.size + 2) 0 with
+      | some (pv, j) => if j == b.size then showPV pv else "trailing"
+      | none => "none"
+    some s!"{a} same={a == c}"
   | "HIST" :: ts => hist ts
   | "DOC" :: h :: infl => do
     let b ← unhexBA h
